@@ -37,23 +37,32 @@ theorem nodes_step {R : Rings} (wf : Wf R) (op : Op) (hv : valid R op = true) {n
     · simp at h; exact Or.inl (h ▸ hv)
     · exact Or.inl ((mem_nodes_erase wf).1 h).1
   | moveCtor e' e =>
-    simp only [valid, Bool.and_eq_true, decide_eq_true_eq, Bool.not_eq_true'] at hv
-    rcases nodes_cons.1 h with h | h
-    · simp at h; exact Or.inl (h ▸ hv.1.2)
-    · rcases (mem_nodes_replace hv.1.1).1 h with h | h
-      · exact Or.inl h.1
-      · exact Or.inr (by simp [created, h.1])
+    simp only [valid, Bool.and_eq_true, decide_eq_true_eq] at hv
+    simp only [Spec.step] at h
+    split at h
+    · rcases nodes_cons.1 h with h | h
+      · simp at h; exact Or.inr (by simp [created, h])
+      · exact Or.inl h
+    · rcases nodes_cons.1 h with h | h
+      · simp at h; exact Or.inl (h ▸ hv.2)
+      · rcases (mem_nodes_replace hv.1).1 h with h | h
+        · exact Or.inl h.1
+        · exact Or.inr (by simp [created, h.1])
   | moveAssign a b =>
-    simp only [valid, Bool.and_eq_true, decide_eq_true_eq, Bool.or_eq_true, Bool.not_eq_true'] at hv
+    simp only [valid, Bool.and_eq_true, decide_eq_true_eq] at hv
     by_cases e : b = a
     · simp [Spec.step, e] at h; exact Or.inl h
     · simp only [Spec.step, e, ite_false] at h
       have hw : Node.elem a ∉ nodes (eraseNode R (.elem a)) := fun h => ((mem_nodes_erase wf).1 h).2 rfl
-      rcases nodes_cons.1 h with h | h
-      · simp at h; exact Or.inl (h ▸ hv.1.2)
-      · rcases (mem_nodes_replace hw).1 h with h | h
-        · exact Or.inl ((mem_nodes_erase wf).1 h.1).1
-        · exact Or.inl (h.1 ▸ hv.1.1)
+      split at h
+      · rcases nodes_cons.1 h with h | h
+        · simp at h; exact Or.inl (h ▸ hv.1)
+        · exact Or.inl ((mem_nodes_erase wf).1 h).1
+      · rcases nodes_cons.1 h with h | h
+        · simp at h; exact Or.inl (h ▸ hv.2)
+        · rcases (mem_nodes_replace hw).1 h with h | h
+          · exact Or.inl ((mem_nodes_erase wf).1 h.1).1
+          · exact Or.inl (h.1 ▸ hv.1)
   | listMoveCtor k' k =>
     simp only [valid, Bool.and_eq_true, decide_eq_true_eq] at hv
     simp only [Spec.step] at h
